@@ -15,7 +15,7 @@ func main() {
 	r.Rule("random histories of unlock (right / wrong: truncated, extended, case-flipped, empty, public passphrase, previous passphrases), lock, passphrase change (public/private x locked/unlocked x right/wrong old), next/extend/lookup/derive-by-path (fills the derived-key cache), new account, xpub-account import, key/script import, cache invalidation and restart on a real waddrmgr.Manager. After every operation in a locked state an ACCESS BATTERY probes PrivKey / ExportPrivKey / Script of managed addresses, both on freshly looked-up objects and on up to 60 objects obtained AND USED while unlocked (Address, ForEachAccountAddress of default and imported accounts) and retained since, (all of them after lock, restart and failed unlock), DeriveFromKeyPathCache and DeriveFromKeyPath(...).PrivKey for every path ever derived, Encrypt/Decrypt(CKTPrivate|CKTScript), NewAccount, NewRawAccount, ImportPrivateKey, ImportScript, ImportWitnessScript(secret), NewScopedKeyManager: each must fail with a locked / watching-only error and return nothing. Every Lock, every Unlock that fails while unlocked, and every conversion of an UNLOCKED manager to watching-only (which must lock it) is bracketed by the verif hook: aliases of all live clear-text buffers (master key, crypto keys, passphrase hash, account private keys, address private keys, P2SH scripts, cached derived keys) are captured before and must be all-zero after, and none may be live afterwards. Passphrase batteries after every private change (new works at once whatever the lock state, old fails and leaves it locked), after public changes (old public passphrase cannot open a copy), and after restarts (previous passphrases fail, current works). Non-trivial = history with at least one wipe check and one locked access battery; distinct = distinct op-kind sequences.")
 	r.Trusted("verif hook waddrmgr.VerifSecretBuffers (aliases live buffers under the manager's own locks)")
 	r.Assume("clear text of witness/taproot secret scripts is recorded as an observation only (DESIGN O-3); their accessors are probed", "error classes asserted only as locked-or-watching-only")
-	dir, _ := os.MkdirTemp("", "c05")
+	dir := r.TempDir("c05")
 	defer os.RemoveAll(dir)
 	wt := mgr.DefaultWeights
 	wt.Lock, wt.Unlock, wt.UnlockWrong, wt.ChangePriv, wt.ChangePub, wt.DerivePath, wt.ImportXPub, wt.Restart = 10, 10, 6, 6, 3, 8, 5, 5
